@@ -334,10 +334,54 @@ fn fk_action(s: &S) -> ForeignKeyAction {
 }
 
 /// the same clause list drives ForeignKeyCreateStatement and TableForeignKey (their methods delegate)
+/// (fromtbl T) immediately followed by 1..3 (fromcol ..) clauses - the only from-columns of the key - is, for
+/// part of the cases, given through ForeignKeyCreateStatement::from(table, columns); likewise to(..)
+fn grouped(args: &[S], i: usize, tbl: &str, col: &str) -> Option<usize> {
+    if args[i].head() != tbl {
+        return None;
+    }
+    let mut j = i + 1;
+    while j < args.len() && args[j].head() == col {
+        j += 1;
+    }
+    let n = j - i - 1;
+    let total = args.iter().filter(|c| c.head() == col).count();
+    let tbls = args.iter().filter(|c| c.head() == tbl).count();
+    if (1..=3).contains(&n) && total == n && tbls == 1 && crate::exprs::shash(&args[i]) % 2 == 1 {
+        Some(n)
+    } else {
+        None
+    }
+}
+
 pub fn fk_create(s: &S) -> ForeignKeyCreateStatement {
     let mut fk = ForeignKey::create();
-    for c in s.args() {
+    let args = s.args();
+    let mut skip = 0usize;
+    for (i, c) in args.iter().enumerate() {
+        if skip > 0 {
+            skip -= 1;
+            continue;
+        }
         let l = c.args();
+        for (tbl, col, is_from) in [("fromtbl", "fromcol", true), ("totbl", "tocol", false)] {
+            if let Some(n) = grouped(args, i, tbl, col) {
+                let t = tref(&l[0]);
+                let cs: Vec<Alias> = args[i + 1..i + 1 + n].iter().map(|x| id(&x.args()[0])).collect();
+                match (n, is_from) {
+                    (1, true) => fk.from(t, cs[0].clone()),
+                    (2, true) => fk.from(t, (cs[0].clone(), cs[1].clone())),
+                    (3, true) => fk.from(t, (cs[0].clone(), cs[1].clone(), cs[2].clone())),
+                    (1, false) => fk.to(t, cs[0].clone()),
+                    (2, false) => fk.to(t, (cs[0].clone(), cs[1].clone())),
+                    _ => fk.to(t, (cs[0].clone(), cs[1].clone(), cs[2].clone())),
+                };
+                skip = n;
+            }
+        }
+        if skip > 0 {
+            continue;
+        }
         match c.head() {
             "name" => {
                 fk.name(hx(&l[0]));
